@@ -362,7 +362,7 @@ check("C17",
            "unrelated factory calls -- including requests for the very names, labels, literals and types the program uses -- injected "
            "before construction step k for EVERY k; the unit printed (text discarded) before step k for EVERY k, and before all steps; "
            "thorough: noise before every PAIR of steps}. Oracle: printed bytes identical across all "
-           "histories; three further fresh printers on the same graph reproduce them; fingerprint of every node the program built "
+           "histories; three further fresh printers on the same graph (two of them constructed in storage filled with ones) reproduce them; fingerprint of every node the program built "
            "unchanged by printing; with print_locations on the text is the off-text with only the F<file>:<line>[:<col>] tokens of "
            "located nodes inserted (each shows, none invented), off => none. distinct_nontrivial = programs printed to completion.",
       text="Every program of the bounded fragment x every construction history of the deviation-bounded set is built on the "
